@@ -213,7 +213,12 @@ def main():
         for (variant, qn, tn, extra) in variants:
             n = int((qn if tier == "quick" else tn) * SCALE)
             out = "build/tmp/res-%s-%s.json" % (prop, variant)
-            cap = 45 if tier == "quick" else (600 if variant in ("prod", "hook") or variant.startswith("trng") else 240)
+            if tier == "quick": cap = 45
+            elif variant == "prod": cap = 360
+            elif variant == "hook": cap = 240
+            elif variant == "san": cap = 150
+            elif variant.startswith("trng"): cap = 120
+            else: cap = 40
             cmd = [sims[variant], "run", "--engine", engine, "--prop", prop, "--tier", tier, "--seed", str(SEED), "--runs", str(max(1, n)), "--jobs", str(JOBS),
                    "--out", out, "--replay-dir", RPDIR, "--time-cap", str(cap), "--tree", tid] + extra
             for k in known:
@@ -286,6 +291,9 @@ def main():
         for k in REQUIRED_PROBES.get(prop, []):
             if ctr.get(k, 0) == 0:
                 missing.append(k)
+        need_states = {"C11": 64}.get(prop)   # every reachable (buffer position, update path) pair
+        if tier == "thorough" and need_states and states < need_states:
+            missing.append("abstract states reached %d < %d" % (states, need_states))
         if missing and tier == "thorough":
             fault = "required probes never fired: %s -- the workload must be fixed before this verdict can be trusted" % ", ".join(missing)
     ev = {
